@@ -9,7 +9,10 @@ class JavaCompiler(BaseCompiler):
     ERROR_REGEX = re.compile(
         r'([a-zA-Z0-9\/_]+.java):(\d+:[ ]+error:[ ]+.*)(.*?(?=\n{1,}))')
 
-    CRASH_REGEX = re.compile(r'(java\.lang.*)\n(.*)')
+    # An exception line followed by a stack frame (a diagnostic that merely
+    # mentions java.lang.X is not a crash).
+    CRASH_REGEX = re.compile(
+        r'(java\.[\w.$]+(?:Exception|Error)\b.*)\n(\s*at .*)')
 
     def __init__(self, input_name, filter_patterns=None):
         input_name = os.path.join(input_name, '*', '*.java')
